@@ -35,10 +35,19 @@ func execWorld(s *Sexp) string {
 				tg, _ := unhx(arg(3))
 				rt, ok := regTypeByName(string(n))
 				c, ok2 := markerCodecs[arg(4)]
-				if i <= 0 || i >= len(insts) || !ok || !ok2 {
+				if i < 0 || i >= len(insts) || !ok || !ok2 {
 					return "bad-op reg"
 				}
-				insts[i].RegisterCodecWithTag(rt, string(tg), c)
+				if i == 0 {
+					// the package-level default: only ever under the private tag "c17x"
+					// (nothing else in the harness uses it; it cannot be undone)
+					if string(tg) != "c17x" {
+						return "bad-op reg on default"
+					}
+					plenc.RegisterCodecWithTag(rt, string(tg), c)
+				} else {
+					insts[i].RegisterCodecWithTag(rt, string(tg), c)
+				}
 				outs = append(outs, "-")
 			case "null":
 				i := idx()
@@ -155,7 +164,48 @@ func worldType(g *Gen, name, tag string) *TyDef {
 	return Struct(fs...)
 }
 
+// TagRec: a self-referential struct whose self pointer carries a tag option
+type TagRec struct {
+	V    int     `plenc:"1"`
+	Next *TagRec `plenc:"2,short"`
+	S    string  `plenc:"3,c17x"`
+}
+
+func init() { regStatic(TagRec{}) }
+
 func runC17(r *Runner, g *Gen, tier string) string {
+	// a registration on the package-level default under a private tag must stay there
+	strT := Struct(&FieldDef{Name: "S", Exported: true, Plenc: "1,c17x", T: B("str")},
+		&FieldDef{Name: "N", Exported: true, Plenc: "2,c17x", T: named("MyStr")})
+	for k := 0; k < 6; k++ {
+		items := []*Sexp{A("world"), L(A("new"), A(cfgs[k%4])), L(A("new"), A(cfgs[(k+1)%4])),
+			L(A("reg"), A("0"), A(hxs("string")), A(hxs("c17x")), A("str"))}
+		if k%2 == 1 {
+			items = append(items, L(A("reg"), A("2"), A(hxs("string")), A(hxs("c17x")), A("str")))
+		}
+		for _, inst := range []string{"1", "0", "2", "1"} {
+			items = append(items, L(A("cft"), A(inst), strT.Sexp(), A(hxs(""))))
+			items = append(items, L(A("cft"), A(inst), B("str").Sexp(), A(hxs("c17x"))))
+		}
+		r.Do(L(items...), true, "world.default-reg")
+	}
+	// a codec registered for (T, tag) where T refers to itself through a tagged pointer
+	tagRec := FromRT(staticTypes["TagRec"], 7)
+	for k := 0; k < 6; k++ {
+		items := []*Sexp{A("world"), L(A("new"), A(cfgs[k%4])), L(A("new"), A("00")),
+			L(A("reg"), A("0"), A(hxs("string")), A(hxs("c17x")), A("str")),
+			L(A("reg"), A("1"), A(hxs("string")), A(hxs("c17x")), A("str")),
+			L(A("reg"), A("2"), A(hxs("string")), A(hxs("c17x")), A("str")),
+			L(A("reg"), A("1"), A(hxs("TagRec")), A(hxs("short")), A("int64"))}
+		order := []string{"1", "2", "0"}
+		if k%2 == 1 {
+			order = []string{"2", "1", "0", "1"}
+		}
+		for _, inst := range order {
+			items = append(items, L(A("cft"), A(inst), tagRec.Sexp(), A(hxs(""))))
+		}
+		r.Do(L(items...), true, "world.tagged-self-reference")
+	}
 	n := scale(tier, 1200, 50000)
 	for i := 0; i < n; i++ {
 		items := []*Sexp{A("world")}
